@@ -213,14 +213,11 @@ PROPS = {
         tables=["parse"],
         determined=True,
         projection=lambda case, reply: reply.split(" ")[2] if reply.startswith("ok ") and len(reply.split(" ")) > 2 else ("ok" if reply.startswith("ok") else "E"),
-        technique="Lean 4 theorems: every leaf fragment gets exactly one code-map entry with its exact byte span and volume 1, positions are UTF-8 byte offsets; exhaustive differential execution of the whole code map against the model and independent reference spans",
-        level_text=("PARTIAL proof. Proved in Lean for every context and option record: lexing a leaf fragment (null, boolean, number, string, key) appends exactly one entry, in reservation (= pre-) order, whose span runs from the fragment's first to just after its last character and whose volume is 1; "
-                    "positions advance by the UTF-8 length of the consumed characters, and a successful parse ends at the byte length of the input. The container clauses (entry spans key..value, volumes = subtree sizes, root volume = length: C05_full) await the machine-vs-recursive-descent theorem; "
-                    "they are covered by comparing the complete code map of the real parser with the model and with independently computed reference spans/volumes (via both the string and byte-slice entry points) on the bounded-exhaustive token/character streams "
-                    "(empty containers at every position, arbitrary interleaved whitespace), multi-byte characters, escapes and grammar-directed documents; plus the direct checks 'one entry per traversal fragment, root volume = length, volumes >= 1'."),
+        technique='Lean 4 theorem: the code map built by the modelled parser equals the code map the RFC 8259 derivation of the text induces (a span-annotated copy of the grammar relation): pre-order, one entry per value/entry/key, exact byte spans, subtree-size volumes — by induction through the recursive-descent refinement, including the in-place patching of container entries; model tied to the code by differential execution of the full code map and an independent reference',
+        level_text=("FULL proof on the model. SDoc text v cm (Spec/Spans.lean) is the RFC 8259 grammar relation annotated with byte offsets: cm lists in pre-order one entry per value, per object entry and per key; each span is exactly the bytes of the fragment's own text (an entry: first byte of its key to last byte of its value; never surrounding whitespace; offsets in bytes of the UTF-8 text); each volume is the number of entries in that subtree. C05_codemap_is_spec: for every text, whatever the strict parser returns is that code map (rd_span: induction over the recursive-descent refinement carrying positions and the code map as a list, including end_fragment's in-place update of the container's reserved slot; transported to the explicit-stack loop by machine_eq_rd). C05_every_document: every valid document gets it under every option record. C05_volumes: the volume column is volsV (the hypothesis of C11's navigation theorems), length = number of fragments, root volume = length; C05_root_span. Tie to /repo: the real parser's full code map is compared entry by entry with the model and with an independent reference on every accepted input of the C01 streams."),
         level_note="Trusted: Lean kernel; model validated by correspondence; harness reference spans (refjson.rs).",
         rule="request = text + options; code-map projection. Non-trivial = accepted; distinct request lines",
-        strength="partial: leaf clause + byte positions proved; containers tested",
+        strength='full on the model: code map = grammar-induced spans/volumes for every text; tie to the code by correspondence',
         trusted_base=COMMON_TRUST + ["harness reference spans"],
         assumptions=[],
     ),
